@@ -35,5 +35,5 @@ C09_EXTRA = [
     {"max_fun_evals": 40.0}, {"max_fun_evals": 70.0, "noise_final_samples": 10}, {"poll_mesh_multiplier": 2}, {"search_acq_fcn": ("acq_LCB", 2.0)},
     {"sloppy_improvement": False}, {"max_iter": 4.0},
     {"skip_poll_after_search": False}, {"search_size_locked": False}, {"search_mesh_expand": 1}, {"force_poll_mesh": True}, {"max_poll_grid_number": 1},
-    {"stobads": True}, {"opp_stobads": False, "stobads": True},
+    {"stobads": True}, {"opp_stobads": False, "stobads": True}, {"output_fcn": "STOP_INIT"}, {"output_fcn": "NEVER_STOP"},
 ]
